@@ -394,7 +394,7 @@ def run(check):
     check.guarded("TYPEGRAPH", rule_typegraph)
     check.note("TRAV-IDENT: Expr::Arrow.0.body is not a hole: ARROW-BLOCK (C04) turns it into a block that the block driver visits with its own provider")
     check.rule("TRAV-IDENT", "the collision check only sees identifiers handed to visit_mut_ident: every path of the operation traversal that skips a sub-tree other than a nested block hides user identifiers from it")
-    check.guarded("TRAV-IDENT", lambda c: T.run_cover(c, "TRAV-IDENT", OPV, {T.IDENT}, [], {"visit_mut_expr", "visit_mut_ident", "visit_mut_block_stmt"}, block_override_ok=lambda tr, paths: True, ignore_missing=lambda m: m.endswith("Expr::Arrow.0.body")))
+    check.guarded("TRAV-IDENT", lambda c: T.run_cover(c, "TRAV-IDENT", OPV, {T.IDENT}, [], {"visit_mut_expr", "visit_mut_ident", "visit_mut_block_stmt"}, block_override_ok=lambda tr, paths: True, ignore_missing=lambda m: m.endswith("Expr::Arrow.0.body"), also_vtys=tuple(sorted(T.registering_visitors(c.prog)))))
     check.guarded("DEFAULT-VISITOR", lambda c: T.rule_default_visitor(c, "VisitMut", {T.IDENT}))
     check.guarded("REFUSAL-GATE", rule_refusal)
     return {
